@@ -198,18 +198,40 @@ Definition fill_into (src buf : img) (iy ix by_ bx : slice) : option img :=
                  end))
   end.
 
-(* sub_b = b[by, bx]; sub_i = i[iy, ix]; mode-specific masked store into sub_b *)
-Definition update_into (src buf : img) (iy ix by_ bx : slice) : option img :=
+(* sub_b = b[by, bx]; sub_i = i[iy, ix]; mode-specific masked store into sub_b.
+   [u] is the per-pixel rule: [upd_px] for the code as it is. *)
+Definition update_into_gen (u : mode -> pixel -> pixel -> pixel)
+           (src buf : img) (iy ix by_ bx : slice) : option img :=
   match rects src buf iy ix by_ bx with
   | None => None
   | Some (vy, vx, wy, wx) =>
       Some (mkImg (ih buf) (iw buf) (imode buf)
               (fun r c =>
                  match view_inv wy r, view_inv wx c with
-                 | Some p, Some q => upd_px (imode src) (ipx src (view_at vy p) (view_at vx q)) (ipx buf r c)
+                 | Some p, Some q => u (imode src) (ipx src (view_at vy p) (view_at vx q)) (ipx buf r c)
                  | _, _ => ipx buf r c
                  end))
   end.
+
+Definition update_into : img -> img -> slice -> slice -> slice -> slice -> option img :=
+  update_into_gen upd_px.
+
+(* Repaired integer rule (finding C02-1, fixes/C02-1.patch): zero means undefined on
+   both sides, so a zero buffer pixel takes the source and a zero source leaves
+   the buffer alone, whatever the signs; two non-zero values keep the larger.
+   Coincides with np.maximum on non-negative data. *)
+Definition upd_px_fixed (m : mode) (s o : pixel) : pixel :=
+  match m with
+  | U8 | I16 | I32 =>
+      match s, o with
+      | PxI a, PxI b => if (b =? 0) || (negb (a =? 0) && (b <? a)) then PxI a else PxI b
+      | _, _ => o
+      end
+  | _ => upd_px m s o
+  end.
+
+Definition update_into_fixed : img -> img -> slice -> slice -> slice -> slice -> option img :=
+  update_into_gen upd_px_fixed.
 
 (* Image.clear: by the image's own mode; a 3-channel RGB image is zeroed *)
 Definition clear_px (m : mode) : pixel :=
